@@ -55,7 +55,7 @@ func compileTextsRaw(filter compile.SchemaFilter, texts ...string) (ms schema.Mo
 
 // ---- C13 / C16: derived types, value validation -------------------------------------------------------
 
-var typeBases = []string{"int8", "int16", "int32", "int64", "uint8", "uint16", "uint32", "uint64", "decimal64:1", "decimal64:3", "decimal64:18", "string", "boolean", "empty", "enumeration:a:b:c-d"}
+var typeBases = []string{"int8", "int16", "int32", "int64", "uint8", "uint16", "uint32", "uint64", "decimal64:1", "decimal64:3", "decimal64:12", "decimal64:18", "string", "boolean", "empty", "enumeration:a:b:c-d"}
 
 func baseBounds(base string) (lo, hi string, dec bool, fd int) {
 	switch base {
@@ -205,6 +205,14 @@ func genTypesCase(r *Rng) Case {
 			// its definition, whatever a derived type says
 			lv["fd"] = 1 + r.Intn(18)
 		}
+		if i > 0 && r.Chance(30) {
+			// a restriction written against the one below: single values just above, just below, inside, in a gap
+			if prev, ok := levels[i-1].(map[string]any)["restr"].([]any); ok && cbool(levels[i-1].(map[string]any), "isLength") == isStr {
+				if d := deriveRestr(r, prev); d != nil {
+					lv["restr"], lv["isLength"] = d, isStr
+				}
+			}
+		}
 		levels = append(levels, lv)
 	}
 	// probes: small values, every written bound ±1, base bounds ±1, lexical oddities
@@ -225,7 +233,23 @@ func genTypesCase(r *Rng) Case {
 			}
 		}
 	}
-	lo, hi, dec, _ := baseBounds(base)
+	lo, hi, dec, fd := baseBounds(base)
+	if dec && fd <= 12 {
+		// every written bound one unit of the last fraction digit up and down (few enough digits for the binary64
+		// boundaries of the code to tell them apart: the comparison is exact there)
+		for _, l := range levels {
+			if rs, ok := l.(map[string]any)["restr"].([]any); ok {
+				for _, p := range rs {
+					for _, b := range p.([]any) {
+						if up, down, ok := decNeighbours(b.(string), fd); ok {
+							add(up)
+							add(down)
+						}
+					}
+				}
+			}
+		}
+	}
 	for _, s := range []string{lo, hi, "0", "-1", "1", "+5", "-0", "-00", "-", "+-0", "-+0", "007", "", " 1", "1 ", "1.0", "1.5", "0x10", "1e3", "abc", "true", "a", "c-d", "éé", "aé€", "--1", "+", "1.", ".5", "1_0", "NaN", "Inf", "9223372036854775808", "-9223372036854775809", "18446744073709551616", "256", "-129", "128"} {
 
 		add(s)
@@ -269,6 +293,67 @@ func genTypesCase(r *Rng) Case {
 		probes = append(probes, k)
 	}
 	return Case{"k": "ytypes", "base": base, "levels": levels, "probes": probes}
+}
+
+// the decimal text ± 10^-fd
+func decNeighbours(txt string, fd int) (string, string, bool) {
+	neg := strings.HasPrefix(txt, "-")
+	t := strings.TrimPrefix(strings.TrimPrefix(txt, "-"), "+")
+	ip, fp, _ := strings.Cut(t, ".")
+	if ip == "" || len(fp) > fd || strings.Trim(ip+fp, "0123456789") != "" || len(ip) > 6 {
+		return "", "", false
+	}
+	var v int64
+	fmt.Sscan(ip+fp+strings.Repeat("0", fd-len(fp)), &v)
+	if neg {
+		v = -v
+	}
+	show := func(x int64) string {
+		sign := ""
+		if x < 0 {
+			sign, x = "-", -x
+		}
+		d := fmt.Sprint(x)
+		for len(d) <= fd {
+			d = "0" + d
+		}
+		return sign + d[:len(d)-fd] + "." + d[len(d)-fd:]
+	}
+	return show(v + 1), show(v - 1), true
+}
+
+func deriveRestr(r *Rng, prev []any) []any {
+	var b [][2]int64
+	for _, p := range prev {
+		var lo, hi int64
+		pp := p.([]any)
+		for k, x := range []*int64{&lo, &hi} {
+			t := pp[k].(string)
+			if n, _ := fmt.Sscan(t, x); n != 1 || fmt.Sprint(*x) != t {
+				return nil
+			}
+		}
+		b = append(b, [2]int64{lo, hi})
+	}
+	one := func(v int64) []any { return []any{fmt.Sprint(v), fmt.Sprint(v)} }
+	first, last := b[0], b[len(b)-1]
+	switch r.Intn(6) {
+	case 0:
+		return append(deepCopy(prev).([]any), one(last[1]+1+int64(r.Intn(3))))
+	case 1:
+		return append([]any{one(first[0] - 1 - int64(r.Intn(3)))}, deepCopy(prev).([]any)...)
+	case 2:
+		return []any{one(last[1] + 1 + int64(r.Intn(2)))}
+	case 3:
+		return []any{one(first[0]), one(last[1])}
+	case 4:
+		if len(b) > 1 && b[0][1]+1 < b[1][0] {
+			return []any{one(b[0][1] + 1)}
+		}
+		return []any{one(first[0] + (first[1]-first[0])/2)}
+	default:
+		return []any{[]any{fmt.Sprint(first[0]), fmt.Sprint(first[1])}, one(last[1] + 1)}
+	}
 }
 
 func genYTypes(r *Rng, tier string, n int, emit func(Case)) {
